@@ -948,7 +948,7 @@ func main() {
 	if *limitFlag > 0 {
 		extra = append(extra, "-limit", limitFlag.String())
 	}
-	partDir := filepath.Join(core.VerifDir, ".build", "parts", r.Prop)
+	partDir := r.PartsDir()
 	for i := 0; i < nw; i++ {
 		_ = os.Remove(filepath.Join(partDir, fmt.Sprintf("part%d.json.viol", i)))
 	}
